@@ -156,7 +156,12 @@ def r3_unweighted(ctx):
         v = p.value
         aggs = [e.data[0] for e in p.events if e.kind == "call" and e.data[0][1][0] == "attr" and e.data[0][1][2] in ("aggregate", "agg")]
         if v[0] != "tuple" or len(v[1]) != 2 or len(aggs) != 1:
-            ctx.add("R3", qn + "|structure", "UNDECIDED", "unexpected structure", fn=qn)
+            fa_ = K.first_appearance_numbering(p)
+            if fa_ is not None:
+                ctx.add("R3", qn + "|structure", "VIOLATED", "block results are numbered in order of first appearance (%s) while the block coordinates follow the sorted block labels: "
+                        "means and variances are attached to the wrong blocks unless the points arrive in block order" % show(fa_)[:50], fn=qn)
+            else:
+                ctx.add("R3", qn + "|structure", "UNDECIDED", "unexpected structure", fn=qn)
             continue
         frame, by, gkw, red = groupby_info(aggs[0])
         named = None
